@@ -63,8 +63,8 @@ SEEDS_QUICK = ['C', 'CC', 'C=C', 'CCO', 'C1CC1', 'NaCl', 'CC(N)O@', 'CC=CC/', 'C
 SEEDS_THOROUGH = SEEDS_QUICK + ['C1CC1C', 'C1CCC1']
 # medium seeds (5-10 atoms, Kekule forms only: hydrogens of aromatic atoms are not derivable from atoms and bonds): rings with ambiguous bases, stereo of every kind, zwitterion, metal
 SEEDS_MEDIUM = ['smi:C1=CC=CC=C1', 'smi:C[C@H](N)C(=O)O', 'smi:C/C=C/C=C\\C', 'smi:C1CC2CCC1C2', 'smi:C[N+](C)(C)CC([O-])=O', 'smi:C1CCC2(CC1)OCCO2', 'smi:O=C1C=CC(=O)C=C1',
-                'smi:C[C@H]1CC[C@@H](O)CC1', 'smi:CC=[C@]=CC', 'smi:C#CC[N+]#[C-]', 'smi:C[Mg]Br', 'smi:C1CC1C1CC1', 'smi:N1C=CC=C1', 'smi:C[C@@]12CCC[C@H]1C2', 'smi:OO.[Na+].[Cl-]']
-SEEDS_MEDIUM_QUICK = SEEDS_MEDIUM[:5]
+                'smi:C[C@H]1CC[C@@H](O)CC1', 'smi:CC=[C@]=CC', 'smi:C#CC[N+]#[C-]', 'smi:C[Mg]Br', 'smi:C1CC1C1CC1', 'smi:N1C=CC=C1', 'smi:C[C@@]12CCC[C@H]1C2', 'smi:OO.[Na+].[Cl-]', 'smi:C1CCO[C@H]1C', 'smi:N1CCC[C@H]1C(=O)O']
+SEEDS_MEDIUM_QUICK = SEEDS_MEDIUM[:5] + ['smi:C1CCO[C@H]1C']
 
 
 # ----------------------------------------------------------------------------- raw snapshot, rebuild, readers
@@ -553,6 +553,11 @@ def transition(seedname, hist, e, pat, parent_kh, i4depth=None):
         if d:
             return None, 'I3 derived %s differs from pre-transaction value' % d, None
     if expect in ('same', 'new') and m2 is not src:
+        # I5: a copy / substructure / union denotes the same configuration on every labelled centre whose neighbourhood it retains
+        # (signs relative to ascending neighbour numbers, so the stored neighbour order of either object does not enter)
+        r = same_configuration(src, m2)
+        if r:
+            return None, r, None
         # I4a: the source is untouched by creating the new object
         if raw(src) != pre_raw or diff(read(src, pattern_names('ALL')), pre_full):
             return None, 'I4 source changed by %s' % e[0], None
@@ -563,6 +568,30 @@ def transition(seedname, hist, e, pat, parent_kh, i4depth=None):
             if r:
                 return None, r, None
     return kh, None, len(key[0][0])
+
+
+def same_configuration(src, new):
+    from .c02 import stereo_descr
+    try:
+        d1, d2 = stereo_descr(src), stereo_descr(new)
+    except Exception as e:
+        return 'I5 configuration descriptor raised %s' % type(e).__name__
+    for key, sign in d1.items():
+        atoms = [x for x in key[1:] if isinstance(x, int)]
+        if any(a not in new._atoms for a in atoms):
+            continue
+        env = set()
+        for a in atoms:
+            env |= set(src._bonds[a])
+        if any(x not in new._atoms for x in env) or any(set(src._bonds[a]) != set(new._bonds[a]) for a in atoms):
+            continue   # a neighbour was cut away: the centre may legitimately lose or keep its label
+        if key not in d2:
+            if key[0] == 't' and all(set(src._bonds[x]) == set(new._bonds.get(x, ())) for x in src._atoms if x in new._atoms):
+                return 'I5 stereo label lost in the new object although nothing was cut away'
+            continue
+        if d2[key] != sign:
+            return 'I5 configuration of a retained centre differs between the source and the new object'
+    return None
 
 
 def independence(seedname, hist, e, pre_raw, pre_full):
